@@ -165,6 +165,10 @@ def service_oracle(script, impl):
             if 'changed1:ro1' in out:
                 bad('readonly: an exported method outside the API table changed the data of a read-only engine', ws, out)
             continue
+        if op == 'scancancel':
+            if out != 'scancancel ok':
+                bad('scancancel', ws, out)
+            continue
         if op == 'scanrace':
             # a scan open while a batch arrives shows the state before the batch, never a mix; the batch is applied afterwards
             if out != 'scanrace atomic-old':
@@ -393,6 +397,20 @@ def service_nontrivial(script, impl):
         if (ws[1] in ('Scan', 'TxScan') and svc.startswith('scan:') and svc != 'scan:0') or (ws[1] in ('TxGet', 'TxPut') and not svc.startswith('err:')):
             deep = True
     return rej and wrote and deep
+
+
+def service_lock_oracle(script, impl):
+    """C17 on the service scripts: a request that may not wait for anything (the lock model of the generator: wouldBlock) returned -
+    no handler leaves a transaction open behind it (streaming scan with a client that goes away, refused commits, batches)"""
+    probs = []
+    for ws, out in _lines(script, impl):
+        if (out or '').startswith('svc=err:hung') or (out or '').startswith('scanrace blocked'):
+            probs.append('lock-not-released: %s -> %s' % (' '.join(ws)[:60], (out or '')[:140]))
+    return probs
+
+
+def service_lock_nontrivial(script, impl):
+    return any(l.startswith('scancancel') for l in script) or service_nontrivial(script, impl)
 
 
 def replica_nontrivial(script, impl):
